@@ -353,6 +353,11 @@ pub fn run_modes(base: u64, cfg: &Cfg, calls: &[Value], others: &[(Cfg, Vec<Valu
         let mut j = cfg.json.clone();
         j.as_object_mut().unwrap().insert("audio_none_explicit".into(), json!(true));
         cmp("audio-codec-none", Some(exec::run_instance(base + 6, &Cfg { json: j }, calls, &opts)));
+        for k in 0..4u64 {
+            let mut j = cfg.json.clone();
+            j.as_object_mut().unwrap().insert("audio_then_none".into(), json!(k));
+            cmp("audio-codec-set-then-none", Some(exec::run_instance(base + 6, &Cfg { json: j }, calls, &opts)));
+        }
     }
     if ends_with_single_finish(calls) {
         for how in ["consume", "flush", "inplace"] {
